@@ -112,16 +112,17 @@ func (channel *Channel) basicGet(method *amqp.BasicGet) (err *amqp.Error) {
 		return nil
 	}
 
+	if method.NoAck {
+		// settle at once, as a no-ack consumer does: removes the message from the store
+		qu.AckMsg(message)
+	}
+
 	dTag := channel.NextDeliveryTag()
 	if !method.NoAck {
 		channel.AddUnackedMessage(dTag, "", qu.GetName(), message)
-
-		qu.GetMetrics().Unacked.Counter.Inc(1)
-		channel.server.GetMetrics().Unacked.Counter.Inc(1)
-	} else {
-		qu.GetMetrics().Total.Counter.Dec(1)
-		qu.GetMetrics().ServerTotal.Counter.Dec(1)
 	}
+	qu.GetMetrics().Unacked.Counter.Inc(1)
+	channel.server.GetMetrics().Unacked.Counter.Inc(1)
 
 	channel.SendContent(&amqp.BasicGetOk{
 		DeliveryTag:  dTag,
